@@ -1432,7 +1432,7 @@ func goPowMax(c *engine.Ctx) {
 
 func goShift(c *engine.Ctx) {
 	c.Case("go/shift", func(r *engine.R) {
-		fs := newFailSet("shift", "op", "left", "right", "amount")
+		fs := newShiftFails()
 		for _, so := range shiftOps {
 			sym := so.sym
 			for _, lt := range ityps {
@@ -1463,7 +1463,7 @@ func goShift(c *engine.Ctx) {
 								res = uint64(nativeShift8(lt.signed, sym, uint8(a), int(am.n.Int64())))
 							}
 							r.NT(1)
-							fs.see(so.name, lt.name, rtn, cl)
+							fs.see(so.name, lt.name)
 							var ks [2]string
 							var os [2]outcome
 							for i, fam := range families {
@@ -1487,6 +1487,91 @@ func goShift(c *engine.Ctx) {
 		fs.flush(r)
 		r.Sample("a << n, a >> n, a <<< n, a >>> n for all 256 Int8/UInt8 values of a (boundary values of wider types) and n of every AnyInt member")
 	})
+}
+
+// shiftFails aggregates shift failures so that one defect gets one signature: failures are first grouped by
+// (kind, operator, right-operand type) — the dispatch structure of the shift helpers — and groups that fail for the
+// same set of left types are then merged ("*" = every left type the operator has).
+type shiftFails struct {
+	lefts  map[string]map[string]bool // op -> left types evaluated
+	groups map[string]*shiftGroup
+	order  []string
+}
+
+type shiftGroup struct {
+	kind, op, right string
+	lefts, amounts  map[string]bool
+	samples         []string
+	count           int
+}
+
+func newShiftFails() *shiftFails {
+	return &shiftFails{lefts: map[string]map[string]bool{}, groups: map[string]*shiftGroup{}}
+}
+
+func (f *shiftFails) see(op, left string) {
+	if f.lefts[op] == nil {
+		f.lefts[op] = map[string]bool{}
+	}
+	f.lefts[op][left] = true
+}
+
+func (f *shiftFails) fail(kind, detail, op, left, right, amount string) {
+	key := kind + "|" + op + "|" + right
+	g := f.groups[key]
+	if g == nil {
+		g = &shiftGroup{kind: kind, op: op, right: right, lefts: map[string]bool{}, amounts: map[string]bool{}}
+		f.groups[key] = g
+		f.order = append(f.order, key)
+	}
+	g.lefts[left] = true
+	g.amounts[amount] = true
+	g.count++
+	if len(g.samples) < 3 {
+		g.samples = append(g.samples, detail)
+	}
+}
+
+func (f *shiftFails) flush(r *engine.R) {
+	type merged struct {
+		kind, left             string
+		ops, rights, amounts   map[string]bool
+		samples                []string
+		count                  int
+	}
+	ms := map[string]*merged{}
+	var order []string
+	sort.Strings(f.order)
+	for _, key := range f.order {
+		g := f.groups[key]
+		left := strings.Join(keys(g.lefts), ",")
+		if len(g.lefts) == len(f.lefts[g.op]) {
+			left = "*"
+		}
+		mk := g.kind + "|" + left
+		m := ms[mk]
+		if m == nil {
+			m = &merged{kind: g.kind, left: left, ops: map[string]bool{}, rights: map[string]bool{}, amounts: map[string]bool{}}
+			ms[mk] = m
+			order = append(order, mk)
+		}
+		m.ops[g.op] = true
+		m.rights[g.right] = true
+		for a := range g.amounts {
+			m.amounts[a] = true
+		}
+		m.count += g.count
+		if len(m.samples) < 6 {
+			m.samples = append(m.samples, g.samples...)
+		}
+	}
+	sort.Strings(order)
+	for _, mk := range order {
+		m := ms[mk]
+		sig := fmt.Sprintf("shift op=%s left=%s right=%s amount=%s: %s", strings.Join(keys(m.ops), ","), m.left, strings.Join(keys(m.rights), ","), strings.Join(keys(m.amounts), ","), m.kind)
+		r.Violation(sig, fmt.Sprintf("%d failing evaluation(s), e.g.\n%s", m.count, strings.Join(m.samples, "\n")), m.samples[0])
+		r.Count("failing_evaluations", m.count)
+	}
 }
 
 // isMin: the amount is the minimum of its (signed) type.
